@@ -1,8 +1,8 @@
 (** extraction of the C02 model: specifications, sign layer over the regenerated tables, and the
     word-level as-is models instantiated at the 64-bit word of the default build *)
 Require Import FastZ.
-From Dashu Require Import Base.Prelude Base.Words Int.DivSpec Int.DivWordModel Int.DivWordInst Int.DivNumModular Int.DivSrcInst Int.DivPrim Int.DivMemBase Int.DivMemModel Int.DivOwn Int.DivRemIdx Int.DivKernelsBase Int.DivConstNew Int.DivKernelsInst.
-From DashuGen Require Import SignTables Params DivDispatch DivKernelsGen DivReprGen.
+From Dashu Require Import Base.Prelude Base.Words Int.DivSpec Int.DivWordModel Int.DivWordInst Int.DivNumModular Int.DivSrcInst Int.DivPrim Int.DivMemBase Int.DivMemModel Int.DivOwn Int.DivRemIdx Int.DivKernelsBase Int.DivConstNew Int.DivKernelsInst Int.DivBodiesInst Int.DivConstGenInst.
+From DashuGen Require Import SignTables Params DivDispatch DivKernelsGen DivReprGen DivBodiesGen.
 
 Definition m_repr_div_rem := i_repr_div_rem 64.
 Definition m_repr_div := i_repr_div 64.
@@ -64,7 +64,20 @@ Definition gw_kernel := g_kernel.
 Definition gw_const_fields := g_const_fields.
 Definition gw_const_from := g_const_from.
 
-Extraction "model.ml"
+(** round 5: the hook-level kernels with the recursion of divide_conquer.rs regenerated (coq/gen/DivBodiesGen.v) *)
+Definition gw5_kernel := g5_kernel.
+(** round 5: word / double-word ConstDivisor through the regenerated arms of div_const.rs::repr, and the regenerated
+    *_large_dword helpers of div_ops.rs::repr (values of the returned Repr) *)
+Definition gw5_const_rem (w : Z) := gc_rem (Pnm w) w.
+Definition gw5_const_div_rem (w : Z) := gc_div_rem (Pnm w) w.
+Definition gw5_const_div (w : Z) := gc_div (Pnm w) w.
+Definition gw5_large_dword (w a b : Z) : result (list Z) :=
+  rbind (div_rem_large_dword_chk_gen (Pnm w) w (words_of w a) b) (fun '(q, r) =>
+  rbind (div_large_dword_chk_gen (Pnm w) w (words_of w a) b) (fun q2 =>
+  rbind (rem_large_dword_chk_gen (Pnm w) w (words_of w a) b) (fun r2 =>
+  Ok [tvalue w q; tvalue w r; tvalue w q2; tvalue w r2]))).
+
+Extraction "model.ml" gw5_kernel gw5_const_rem gw5_const_div_rem gw5_const_div gw5_large_dword
   w_repr_div_rem w_repr_div w_repr_rem w_const_div_rem w_const_rem w_kernel_asis wx_repr_div_rem wx_repr_div wx_repr_rem
   wx_const_div_rem wx_const_rem wx_kernel_asis w_kernel_spec w_typed_values w_is_multiple_of_const w_rem_idx
   gw_div_rem_small gw_rem_small gw_div_rem_large gw_div_large gw_rem_large gw_kernel gw_const_fields gw_const_from
